@@ -114,6 +114,12 @@ def run_k(run, tier, seed, drv):
         info["violations"].append({"fingerprint": fp, "tag": hashlib.sha1((fp + c.get("source", "")).encode()).hexdigest()[:10],
                                    "kind": KINDS.get(c.get("explain"), "the implementation's verdicts differ from the documented meaning of the conditions (Cond/Sem.v)"),
                                    "cases_with_this_fingerprint": len(cs), "case": c})
+    # probes of the harness outside the Coq protocol (pairs of conditions that must agree)
+    for f in stats.get("findings", []):
+        fp = f.get("fingerprint", "C02:probe")
+        info["violations"].append({"fingerprint": fp, "tag": hashlib.sha1(fp.encode()).hexdigest()[:10],
+                                   "kind": "`N of (<boolean>, ..)` lists the same items in another order and the implementation gives another verdict (an undefined item ends the statement when it is reached; coq/Props/C02.v of_tuple_order_refuted shows the same on the model)",
+                                   "case": f})
     info["k_disagreements"] = len(failing)
     info["s_violations"] = len(failing)
     if "distribution" in info:
